@@ -22,6 +22,10 @@ def to_snake(name):
     return s.lower()
 
 
+class _NoTail(ExtractError):
+    pass
+
+
 class Obj(dict):
     """a schema record (DataWorld / DataArchetype / DataComponent)"""
     __getattr__ = dict.get
@@ -86,6 +90,8 @@ class Quoter:
             return str(self.eval_expr(m.group(1), env))
         if re.match(r'^xxh3_128\s*\(', s):
             return 'HASH'
+        if re.match(r'^Vec(::<[^>]*>)?::new\(\)$', s):
+            return []
         m = re.match(r'^(\w+)\s*\(\s*&?(\w+)\s*\)$', s)
         if m and m.group(1) in self.fns:
             return self.eval_fn(m.group(1), [self.lookup(m.group(2), env)])
@@ -173,7 +179,7 @@ class Quoter:
             while pos < bclose and msk[pos].isspace():
                 pos += 1
             if pos >= bclose:
-                raise ExtractError('R-quote: %s has no tail expression' % fname)
+                raise _NoTail('R-quote: %s has no tail expression' % fname)
             if msk.startswith('#[', pos):
                 pos = rs.match_close(msk, pos + 1) + 1
                 continue
@@ -213,12 +219,51 @@ class Quoter:
                 self.envs.setdefault(fname, []).append(dict(env))
                 self.log.rule('R-quote', '%s(%s)' % (fname, ', '.join(str(v.get('name')) for v in env.values() if isinstance(v, dict))))
                 return out
-            # statements that only feed holes we drop (mutable accumulators, loops): skip to the end of the statement
-            if re.compile(r'(if|for|while)\b').match(msk, pos):
-                b = rs.find_depth0(msk, pos, '{', bclose)
-                pos = rs.match_close(msk, b) + 1
+            # plain statements (accumulators): `if COND { .. }`, `for _ in 0..E { .. }`, `v.push(E);`
+            m = re.compile(r'if\s+').match(msk, pos)
+            if m:
+                b = rs.find_depth0(msk, m.end(), '{', bclose)
+                cond = self.eval_cond(raw[m.end():b], env)
+                bc = rs.match_close(msk, b)
+                if cond:
+                    self.exec_stmts(b, bc, env, fname)
+                pos = bc + 1
+                continue
+            m = re.compile(r'for\s+(\w+)\s+in\s+').match(msk, pos)
+            if m:
+                b = rs.find_depth0(msk, m.end(), '{', bclose)
+                rng = self.eval_expr('(' + strip_markers(raw[m.end():b]).strip() + ')', env)
+                bc = rs.match_close(msk, b)
+                for x in rng:
+                    env[m.group(1)] = x
+                    self.exec_stmts(b, bc, env, fname)
+                pos = bc + 1
+                continue
+            m = re.compile(r'(\w+)\s*\.\s*push\s*\(').match(msk, pos)
+            if m:
+                close = rs.match_close(msk, m.end() - 1)
+                v = env.get(m.group(1))
+                if not isinstance(v, list):
+                    raise ExtractError('R-quote: push on a non-list local %s in %s' % (m.group(1), fname))
+                v.append(self.eval_expr(raw[m.end():close], env))
+                pos = msk.index(';', close) + 1
                 continue
             raise ExtractError('R-quote: statement form not interpreted in %s: %r' % (fname, strip_markers(raw[pos:pos + 60])))
+
+    def exec_stmts(self, bopen, bclose, env, fname):
+        """a block of plain statements (no tail expression): reuse eval_block's statement forms"""
+        try:
+            self.eval_block(bopen, bclose, env, fname)
+        except _NoTail:
+            return
+        raise ExtractError('R-quote: unexpected tail expression in a statement block of %s' % fname)
+
+    def eval_cond(self, text, env):
+        t = strip_markers(text).strip()
+        m = re.match(r'^(.*?)\s*==\s*(true|false)$', t, re.S)
+        if m:
+            return bool(self.eval_expr(m.group(1), env)) == (m.group(2) == 'true')
+        return bool(self.eval_expr(t, env))
 
     # ------------------------------------------------------------------ quote! instantiation
     def instantiate(self, text, env):
